@@ -4,7 +4,7 @@
    specs/dse_protocol_v1..v2.spec (spec/SpecNotation.v, spec/SpecMsg.v, spec/SpecFrame.v, written without looking at the Go
    code).  This file holds statements only; proofs are in proofs/SpecAgree*.v. *)
 From Coq Require Import ZArith List Bool.
-From GCNP Require Import base.GoInt base.Bytes base.Codec gen.Constants_gen spec.SpecTables model.Prim model.DataType
+From GCNP Require Import spec.SpecClean base.GoInt base.Bytes base.Codec gen.Constants_gen spec.SpecTables model.Prim model.DataType
   model.MsgTypes model.Frame model.MsgRequests model.MsgCodec model.MsgValid model.FrameValid
   proofs.FrameProofs proofs.FrameFinal spec.SpecNotation spec.SpecMsg spec.SpecFrame
   proofs.SpecAgreeHeader proofs.SpecAgreeQuery proofs.SpecAgree.
